@@ -26,6 +26,10 @@ fn seed_text(kind: &str) -> Option<String> {
         "long" => Some(format!("{}ab", GOOD_SEED)),
         "nonhex" => Some(format!("zz{}", &GOOD_SEED[2..])),
         "odd" => Some(GOOD_SEED[..63].to_string()),
+        "zeros" => Some("0".repeat(64)),                          // valid; YAML types it as the integer 0
+        "lzdigits" => Some(format!("{}0123", "0".repeat(60))),     // valid; YAML types it as the integer 123
+        "shortdigits" => Some("1234".to_string()),                 // wrong length, digit-only
+        "zero1" => Some("0".to_string()),
         _ => None,
     }
 }
@@ -143,7 +147,7 @@ pub fn record(seed: u64, tier: &str, out_path: &str, workdir: &str) {
             }
         }
         if rng.chance(1, 12) { w["port"] = json!(ABSENT); }
-        if rng.chance(1, 10) { w["seed"] = json!(*rng.pick(&["short", "long", "nonhex", "missing", "odd", "digits"])); }
+        if rng.chance(1, 10) { w["seed"] = json!(*rng.pick(&["short", "long", "nonhex", "missing", "odd", "digits", "zeros", "lzdigits", "shortdigits", "zero1"])); }
         if rng.chance(1, 20) { w["interface"] = json!("missing"); }
         if rng.chance(1, 3) { w["client_stats"] = json!(*rng.pick(&["on", "yes", "off"])); }
         if rng.chance(1, 3) { w["persistence_directory"] = json!("dir"); }
@@ -164,9 +168,9 @@ fn classify(w: &Value) -> &'static str {
     let inr = |k: &str, v: i64| match k { "port" | "health_check_port" | "status_interval" => (1..=65535).contains(&v), "batch_size" => (1..=64).contains(&v),
         "fault_percentage" => (0..=50).contains(&v), _ => v >= 1 };
     let must_refuse = g("port") == ABSENT || ["port", "batch_size", "fault_percentage", "num_workers"].iter().any(|k| g(k) != ABSENT && !inr(k, g(k)))
-        || (w["seed"] != "ok" && w["seed"] != "digits") || w["interface"] != "ok" || w["unknown_key"] == true;
+        || !["ok", "digits", "zeros", "lzdigits"].contains(&w["seed"].as_str().unwrap_or("")) || w["interface"] != "ok" || w["unknown_key"] == true;
     if must_refuse { return "must_refuse"; }
     let stats_on = w["client_stats"] == "on" || w["client_stats"] == "yes";
-    let must_run = INT_KEYS.iter().all(|(k, _)| g(k) == ABSENT || inr(k, g(k))) && (!stats_on || w["persistence_directory"] == "dir");
+    let must_run = w["seed"] != "zeros" && w["seed"] != "lzdigits" && INT_KEYS.iter().all(|(k, _)| g(k) == ABSENT || inr(k, g(k))) && (!stats_on || w["persistence_directory"] == "dir");
     if must_run { "must_run" } else { "may" }
 }
